@@ -1,7 +1,7 @@
 /-
   Driver ops for the parameterised codec family (C20).  The first argument is the codec, written as
       sof=<hh>;hdr=S,<field>,…;foot=<kind>
-    field : L1 | L2le | L2be | I | F (filler 0x00) | F<hh> (filler byte hh)      — `S` must come first
+    field : L1 | L2le | L2be | L3le | L3be | L4le | L4be | I | F (filler 0x00) | F<hh> (filler byte hh)      — `S` must come first
     kind  : xor | sum1 | sum<k>le | sum<k>be (k = 2..4) | crc32le | crc32be
   e.g. `sof=aa;hdr=S,L2be,I,F;foot=crc32le`.  Records that are not `Params.valid` answer `bad-op`.
 
@@ -29,6 +29,10 @@ def famField (s : String) : Option Family.Field :=
   else if s = "L1" then some (.len 1 false)
   else if s = "L2le" then some (.len 2 false)
   else if s = "L2be" then some (.len 2 true)
+  else if s = "L3le" then some (.len 3 false)
+  else if s = "L3be" then some (.len 3 true)
+  else if s = "L4le" then some (.len 4 false)
+  else if s = "L4be" then some (.len 4 true)
   else if s = "F" then some (.fill 0)
   else
     match s.toList with
